@@ -23,6 +23,7 @@ interface org.verif.t
 method Echo(token: string) -> (token: string)
 method Fail(token: string) -> ()
 method Stream(n: int, token: string) -> (i: int, token: string)
+method StreamRaw(n: int, token: string) -> (i: int, token: string)
 method Script(ops: []string, token: string) -> (token: string)
 method Upgrade(token: string) -> (token: string)
 method Block(token: string) -> (token: string)
@@ -196,6 +197,16 @@ impl Interface for TIface {
                     if self.stream_delay_ms > 0 {
                         std::thread::sleep(std::time::Duration::from_millis(self.stream_delay_ms));
                     }
+                    call.reply_struct(Reply::parameters(Some(json!({"i": i, "token": token}))))?;
+                }
+                call.set_continues(false);
+                call.reply_struct(Reply::parameters(Some(json!({"i": n, "token": token}))))
+            }
+            "org.verif.t.StreamRaw" => {
+                // like Stream, but leaves the `more` question to the library
+                let n = params.as_ref().and_then(|v| v.get("n")).and_then(|v| v.as_u64()).unwrap_or(0);
+                call.set_continues(true);
+                for i in 0..n {
                     call.reply_struct(Reply::parameters(Some(json!({"i": i, "token": token}))))?;
                 }
                 call.set_continues(false);
